@@ -63,6 +63,8 @@ func main() {
 	flag.StringVar(&out, "out", "", "write JSON report here")
 	flag.StringVar(&list, "list", "", "only list harnesses matching the regexp")
 	flag.IntVar(&jobs, "j", 8, "harnesses run in parallel")
+	var harnessFiles string
+	flag.StringVar(&harnessFiles, "harness-files", "", "regexp on paths relative to -harness: only matching harness files are overlaid")
 	var noStub string
 	flag.StringVar(&noStub, "no-stub", "", "regexp: execute the real code of matching callees instead of their contract stub")
 	var prof string
@@ -74,6 +76,9 @@ func main() {
 		defer pprof.StopCPUProfile()
 	}
 
+	if harnessFiles != "" {
+		cfg.HarnessFiles = regexp.MustCompile(harnessFiles)
+	}
 	if noStub != "" {
 		nre := regexp.MustCompile(noStub)
 		for k := range intrinsics {
